@@ -70,7 +70,13 @@ func c05Check(ctx *vfCtx, c c05Case) {
 		}
 	}
 	var red []byte
-	if vfCatch(ctx, "C05", func() { red, err = impl.RedactEventJSON(append([]byte(nil), c.Event...)) }) {
+	handed := append([]byte(nil), c.Event...)
+	defer func() {
+		if string(handed) != string(c.Event) && !ctx.Failed() {
+			ctx.Fail("C05/input-overwritten", "RedactEventJSON changed the JSON it was given: %q now reads %q", c.Event, handed)
+		}
+	}()
+	if vfCatch(ctx, "C05", func() { red, err = impl.RedactEventJSON(handed) }) {
 		return
 	}
 	if err != nil {
